@@ -51,11 +51,14 @@ type c12Scenario struct {
 	// the write batch when the closes run: 1 = an ordinary one, 2 = one the kernel will refuse
 	// (70000 bytes), so that the final flush inside the socket's Close fails
 	QueuedWrite int
+	// Backlog 0 = the default (128); 1 or 2: un-accepted remotes beyond it overflow, their
+	// connection requests are discarded
+	Backlog int
 }
 
 func (sc c12Scenario) String() string {
 	return fmt.Sprintf("accepted=%d unaccepted=%d lclose=%d cclose=%v accept=%d readers=%v sendNew=%v sendOld=%v batch=%v inside=%v gate=%v queuedWrite=%d",
-		sc.Accepted, sc.Unaccepted, sc.LClose, sc.CClose, sc.Accept, sc.Readers, sc.SendNew, sc.SendOld, sc.Batch, sc.Inside, sc.Gate, sc.QueuedWrite)
+		sc.Accepted, sc.Unaccepted, sc.LClose, sc.CClose, sc.Accept, sc.Readers, sc.SendNew, sc.SendOld, sc.Batch, sc.Inside, sc.Gate, sc.QueuedWrite) + fmt.Sprintf(" backlog=%d", sc.Backlog)
 }
 
 func genC12(t *rapid.T) c12Scenario {
@@ -76,6 +79,10 @@ func genC12(t *rapid.T) c12Scenario {
 	for i := 0; i < sc.Accepted; i++ {
 		sc.CClose = append(sc.CClose, rapid.SampledFrom([]int{0, 1, 1, 2}).Draw(t, "cclose"))
 		sc.Readers = append(sc.Readers, rapid.IntRange(0, 2).Draw(t, "reader") == 0)
+	}
+	if rapid.IntRange(0, 3).Draw(t, "smallBacklog") == 0 {
+		sc.Backlog = rapid.IntRange(1, 2).Draw(t, "backlog")
+		sc.Unaccepted = rapid.IntRange(0, 4).Draw(t, "unacceptedMany")
 	}
 	if sc.Batch && sc.Accepted > 0 {
 		sc.QueuedWrite = rapid.IntRange(0, 2).Draw(t, "queuedWrite")
@@ -145,7 +152,10 @@ func runC12(sc c12Scenario, ch sched.Chooser, c *ev.Case, logf func(string, ...a
 	if c != nil && sc.QueuedWrite > 0 {
 		c.Label(fmt.Sprintf("queued-write/%d", sc.QueuedWrite))
 	}
-	lc := udp.ListenConfig{}
+	lc := udp.ListenConfig{Backlog: sc.Backlog}
+	if c != nil && sc.Backlog > 0 && sc.Unaccepted > sc.Backlog {
+		c.Label("backlog-overflow")
+	}
 	gateEntered := make(chan struct{}, 4)
 	gateRelease := make(chan struct{})
 	gateAbort := make(chan struct{})
@@ -291,6 +301,33 @@ func runC12(sc c12Scenario, ch sched.Chooser, c *ev.Case, logf func(string, ...a
 	ccloseDone := make([]int, sc.Accepted)
 	accRes := make([]*acceptResult, sc.Accept)
 	readRes := make([]*acceptResult, sc.Accepted)
+	// "closed once the listener and every accepted connection have been closed": at the moment
+	// a Close returns as the last one (everybody else's Close has returned, no Accept is
+	// around that could still hold a connection), the port must be free - not a little later
+	releasedChecked := false
+	checkReleased := func(who string) {
+		mu.Lock()
+		ok := !releasedChecked && sc.Accept == 0 && lcloseDone >= 1
+		for i := range ccloseDone {
+			ok = ok && ccloseDone[i] >= 1
+		}
+		if ok {
+			releasedChecked = true
+		}
+		mu.Unlock()
+		if !ok {
+			return
+		}
+		if c != nil {
+			c.Label("released-at-last-close")
+		}
+		pc, err := net.ListenUDP("udp", laddr)
+		if err != nil {
+			fail("C12: %s returned as the last Close (the listener and all %d accepted connections are closed), but the port is still bound at that moment: %v", who, len(ccloseDone), err)
+			return
+		}
+		_ = pc.Close()
+	}
 	var lcloseTasks []*sched.Task
 	for k := 0; k < sc.LClose; k++ {
 		lcloseTasks = append(lcloseTasks, s.Go(fmt.Sprintf("lclose%d", k), wait(func() {
@@ -299,6 +336,7 @@ func runC12(sc c12Scenario, ch sched.Chooser, c *ev.Case, logf func(string, ...a
 			lcloseDone++
 			lcloseErrs = append(lcloseErrs, err)
 			mu.Unlock()
+			checkReleased("the listener's Close")
 		})))
 	}
 	for i, n := range sc.CClose {
@@ -309,6 +347,7 @@ func runC12(sc c12Scenario, ch sched.Chooser, c *ev.Case, logf func(string, ...a
 				mu.Lock()
 				ccloseDone[i]++
 				mu.Unlock()
+				checkReleased(fmt.Sprintf("Close of connection %d", i))
 			}))
 		}
 	}
@@ -509,6 +548,13 @@ func runC12(sc c12Scenario, ch sched.Chooser, c *ev.Case, logf func(string, ...a
 			c.Label("expect/socket-released")
 		}
 		// the shared socket must be closed: port reusable, no goroutine of the package left
+		// every Close has returned: the socket is closed now, not at some later time
+		if pc, err := net.ListenUDP("udp", laddr); err != nil {
+			fail("C12: the listener and every accepted connection are closed and every Close has returned, but the port is still bound: %v (package goroutines: %v)\n%s", err, udpFrames(before), s.Describe())
+			return
+		} else {
+			_ = pc.Close()
+		}
 		deadline := time.Now().Add(3 * time.Second)
 		for {
 			pc, err := net.ListenUDP("udp", laddr)
@@ -691,7 +737,7 @@ func (w *overlapWatcher) Pick(s *sched.Session, enabled []*sched.Task) *sched.Ta
 	return t
 }
 
-const ruleC12 = "setup on a real loopback socket (0..3 accepted and 0..2 un-accepted connections created by real datagrams, optional batch mode, there optionally with a datagram - an ordinary one or one the kernel will refuse - still waiting in the write batch when the closes run), then a controlled phase over the yield-instrumented udp/conn.go and packetio/buffer.go: tasks listener.Close (0..2 calls), conn.Close (0..2 calls per connection), Accept (0..2), conn.Read, datagrams from a new and from a known remote, in a rapid-drawn schedule; the listener's own read-loop and closer goroutines run free and are covered by the terminal-quiescence rule (two snapshots 1.5 ms apart with every goroutine parked); oracle: no Close stays blocked, Close returns nil, Accept fails once the listener is closed or its connection counts as accepted, reads of closed connections return; then, with real I/O: if the listener and all accepted connections are closed the port can be bound again and no goroutine of the package is left, otherwise every accepted unclosed connection still sends to and receives from its remote and an open listener still accepts; non-trivial = an Accept or a connection Close was scheduled inside the listener's Close; distinct by hash of scenario + step trace"
+const ruleC12 = "setup on a real loopback socket (0..3 accepted and 0..2 un-accepted connections created by real datagrams, optional batch mode, backlog 128 or 1..2 with up to 4 un-accepted remotes so that connection requests overflow, there optionally with a datagram - an ordinary one or one the kernel will refuse - still waiting in the write batch when the closes run), then a controlled phase over the yield-instrumented udp/conn.go and packetio/buffer.go: tasks listener.Close (0..2 calls), conn.Close (0..2 calls per connection), Accept (0..2), conn.Read, datagrams from a new and from a known remote, in a rapid-drawn schedule; the listener's own read-loop and closer goroutines run free and are covered by the terminal-quiescence rule (two snapshots 1.5 ms apart with every goroutine parked); oracle: no Close stays blocked, Close returns nil, Accept fails once the listener is closed or its connection counts as accepted, reads of closed connections return; then, with real I/O: if the listener and all accepted connections are closed the port can be bound again - in scenarios without Accept tasks already at the moment the last Close returns - and no goroutine of the package is left (within 3 s), otherwise every accepted unclosed connection still sends to and receives from its remote and an open listener still accepts; non-trivial = an Accept or a connection Close was scheduled inside the listener's Close; distinct by hash of scenario + step trace"
 
 func TestC12Schedules(t *testing.T) {
 	r := ev.New("C12", "schedules", ruleC12)
